@@ -81,10 +81,13 @@ def specLtv (sup : AList String SupplyInfo) (bor : AList String BorrowInfo) : Re
   let ts ← specTotalSupply cx env sup
   if ts = 0 then pure .inf else do
     let tb ← specTotalBorrows cx env bor
-    pure (.fin (cx.div tb ts))
+    let ts2 ← specTotalSupply cx env sup
+    pure (.fin (cx.div tb ts2))
 
+/-- weighted APY of the listed supplies -/
 def specSupplyApy (sup : AList String SupplyInfo) : Res Rat := do
-  let rates ← (keys sup).mapM (fun k => do let st ← env.statusOf k; pure (k, st.liqRate))
+  let svs ← specSupplies cx env sup
+  let rates ← (keys svs).mapM (fun k => do let st ← env.statusOf k; pure (k, st.liqRate))
   let amounts ← specSupAmt cx env sup
   apyOf cx amounts rates
 
@@ -106,10 +109,13 @@ def specBalance (sup : AList String SupplyInfo) (bor : AList String BorrowInfo) 
   let ts ← balQuant ts
   let tb ← specTotalBorrows cx env bor
   let tb ← balQuant tb
+  let net := cx.sub ts tb
   let sa ← specSupplyApy cx env sup
   let sa ← balQuant sa
   let ba ← specBorrowApy cx env bor
   let ba ← balQuant ba
+  let netApy := netApyOf cx sa ts ba tb
+  let cnt ← (.ok (sup.length, bor.length) : Res (Nat × Nat))
   let lt ← specLiqThreshold cx env sup
   let lt ← safeRounding lt
   let hf ← specHealthFactor cx env sup bor
@@ -119,10 +125,24 @@ def specBalance (sup : AList String SupplyInfo) (bor : AList String BorrowInfo) 
   let ml ← specMaxLtv cx env sup
   let ml ← safeRounding ml
   let ltv ← specLtv cx env sup bor
-  pure { netValue := cx.sub ts tb, suppliesCount := sup.length, borrowsCount := bor.length,
+  pure { netValue := net, suppliesCount := cnt.1, borrowsCount := cnt.2,
          liqThreshold := lt, healthFactor := hf, borrowsValue := tb, suppliesValue := ts,
-         collateralsValue := tc, maxLtv := ml, ltv := ltv, supplyApy := sa, borrowApy := ba,
-         netApy := netApyOf cx sa ts ba tb }
+         collateralsValue := tc, maxLtv := ml, ltv := ltv, supplyApy := sa, borrowApy := ba, netApy := netApy }
+
+/-- `get_max_borrow_amount(token)` from scratch -/
+def specMaxBorrowAmount (sup : AList String SupplyInfo) (bor : AList String BorrowInfo) (k : String) : Res Rat := do
+  let cv ← specColl cx env sup
+  let bv ← specBorAmt cx env bor
+  let ml ← maxLtvOf cx env cv
+  let tb := dsum cx (vals bv)
+  let tc := dsum cx (vals cv)
+  match ml with
+  | .inf => .error .invalidOp
+  | .fin l =>
+    let v := cx.mul (cx.sub (cx.mul tc l) tb) Gen.aaveMaxBorrowUi
+    do
+      let p ← env.priceOf k
+      divE cx v p
 
 /-- the market's net value before the 4-dp quantisation: Σ supplies − Σ debts, from raw positions -/
 def specNetValueRaw (sup : AList String SupplyInfo) (bor : AList String BorrowInfo) : Res Rat := do
